@@ -86,11 +86,42 @@ def _wrap_op(cls, name, orig):
     return w
 
 
+def _wrap_can(cls, name, orig):
+    @functools.wraps(orig)
+    def w(self, *a, **k):
+        mon = getattr(getattr(self, "env", None), "_mon", None)
+        if mon is None or mon.suppress or not mon.can_hooks:
+            return orig(self, *a, **k)
+        try:
+            res = orig(self, *a, **k)
+        except BaseException as e:
+            for h in mon.can_hooks:
+                h(self, name, None, e)
+            raise
+        for h in mon.can_hooks:
+            h(self, name, res, None)
+        return res
+    w._fsmon = True
+    return w
+
+
 def install():
     global _installed
     if _installed:
         return wrapped
     use_repo()
+    for mod, cname in EDGE_CLASSES:
+        try:
+            m = importlib.import_module(mod)
+            cls = getattr(m, cname)
+        except Exception as e:
+            wrapped[(mod, cname)] = repr(e)
+            continue
+        for op in ("can_put", "can_get"):
+            orig = cls.__dict__.get(op)
+            if orig is None or getattr(orig, "_fsmon", False):
+                continue
+            setattr(cls, op, _wrap_can(cls, op, orig))
     for mod, cname in STORE_CLASSES:
         try:
             m = importlib.import_module(mod)
